@@ -15,9 +15,13 @@ value tie : for every primitive call of a run the captured (A_i, A_{i+1}, Q, R) 
 trace tie : the sequence of primitive calls (flip / right_qr with or without contraction of R / two_site_svd) of every
             public operation vs the model's event list.
 spec tie  : Q R = M, Q^H Q = 1;  U diag(s) Vh = theta, U^H U = 1, Vh Vh^H = 1, s sorted and non-negative.
+            (extension x10) shape hypotheses of the executable SVD shift / last-site QR (`svdShaped`, `R` is 1x1) on every call.
 oracle    : `to_vec()` before vs after every operation (unchanged; normalize / pad: equal up to a scalar of modulus
             1/||psi||), the isometry conditions of the requested form afterwards, `check_canonical_form` contains the
             requested centre.
+            (extension x10, kinds `svdx-*`, `canon-rect`) change of the merged two-site matrix = discarded weight; last-site
+            QR: old vector = r00 x new vector; `truncate` / `set_canonical_form` touch every bond exactly once; error of a
+            truncating `truncate` bounded by the discarded weights.
 """
 from __future__ import annotations
 
@@ -37,6 +41,8 @@ warnings.simplefilter("ignore")
 KNOWN_KEY = "C10:svd-shift-absolute-threshold"
 SHIFT_THR = 1e-12
 SPEC = {"qr_n": 0, "qr_bad": 0, "qr_worst": 0.0, "svd_n": 0, "svd_bad": 0, "svd_worst": 0.0, "detail": ""}
+SHAPE = {"svd_n": 0, "svd_bad": 0, "qrlast_n": 0, "qrlast_bad": 0, "detail": ""}  # hypotheses of Lemmas/MpsBridgeSvd.lean
+BLOCK = {"n": 0, "bad": 0, "worst": 0.0, "detail": ""}
 COUNTS = ib.Hist()
 WORST = {"vec": 0.0, "iso": 0.0, "scalar": 0.0}
 
@@ -126,6 +132,30 @@ def check_svd_spec(m, u, s, vh):
         SPEC["detail"] = f"SVD: recon {e1:.2e} UhU {e2:.2e} VVh {e3:.2e} s={s[:6]}"
 
 
+def check_svd_shape(a, b, u, s, vh, a_new):
+    """`svdShaped` of Lemmas/MpsBridgeSvd.lean on the real call: U (phys_i*left) x k, s of length k, Vh k x (phys_j*right),
+    1 <= keep <= k"""
+    SHAPE["svd_n"] += 1
+    k = len(s)
+    keep = a_new.shape[2]
+    ok = (u.shape == (a.shape[0] * a.shape[1], k) and vh.shape == (k, b.shape[0] * b.shape[2]) and 1 <= keep <= k
+          and a.shape[2] == b.shape[1])
+    if not ok:
+        SHAPE["svd_bad"] += 1
+        SHAPE["detail"] = f"SVD shapes: a {a.shape} b {b.shape} U {u.shape} s {k} Vh {vh.shape} keep {keep}"
+
+
+def check_qrlast_shape(tensor, q, r, is_last):
+    """hypotheses of `c10_exec_qr_last`: at the last site of a chain (right bond 1) the reduced QR has a 1 x 1 `R`"""
+    if not is_last:
+        return
+    SHAPE["qrlast_n"] += 1
+    ok = tensor.shape[2] == 1 and r.shape == (1, 1) and q.shape == (tensor.shape[0] * tensor.shape[1], 1)
+    if not ok:
+        SHAPE["qrlast_bad"] += 1
+        SHAPE["detail"] = f"last-site QR shapes: tensor {tensor.shape} Q {q.shape} R {r.shape}"
+
+
 # ----------------------------------------------------------------------------------------------- observation
 
 REC = {"on": False, "mps": None, "events": [], "depth": 0, "contracts": [], "pad_entry": None, "canon_ret": []}
@@ -187,6 +217,7 @@ def observed(mps):
             np.linalg.qr = o_qr
         if "M" in cap:
             check_qr_spec(cap["M"], cap["Q"], cap["R"])
+            check_qrlast_shape(np.asarray(tensor), cap["Q"], cap["R"], site >= 0 and site == len(REC["mps"].tensors) - 1)
         mps_ = REC["mps"]
         nxt = mps_.tensors[site + 1].copy() if site >= 0 and site + 1 < len(mps_.tensors) else None
         REC["events"].append({"ev": "qr", "site": site, "A": np.array(tensor), "B": nxt, "ret": (np.array(out[0]), np.array(out[1])), **cap})
@@ -211,6 +242,7 @@ def observed(mps):
             dec_mod.robust_svd = o_svd
         if "theta" in cap:
             check_svd_spec(cap["theta"], cap["U"], cap["S"], cap["V"])
+            check_svd_shape(np.asarray(a), np.asarray(b), cap["U"], cap["S"], cap["V"], np.asarray(out[0]))
         REC["events"].append({"ev": "svd" if REC["depth"] > 0 else "svdT", "site": site, "A": np.array(a), "B": np.array(b),
                               "thr": float(threshold), "cap": max_bond_dim, "ret": (np.array(out[0]), np.array(out[1])), **cap})
         return out
@@ -386,6 +418,12 @@ def gen(rng, tier):
     # list model <-> Matrix model bridge (Lemmas/MpsBridge.lean) on real tensors
     for _ in range({"quick": 40, "thorough": 300, "search": 80}.get(tier, 40)):
         yield {"kind": "bridge", "sub": rng.randrange(1 << 30)}
+    # extension x10: SVD shift / last-site QR / truncate bonds / rectangular Gram tests
+    for n in range({"quick": 70, "thorough": 500, "search": 150}.get(tier, 70)):
+        yield {"kind": "svdx", "sub": rng.randrange(1 << 30), "variant": ["tiny", "rankdef", "d3", "plain", "tiny"][n % 5],
+               "thr": rng.choice([1e-2, 1e-3, 1e-4, 1e-6, 1e-12])}
+    for _ in range({"quick": 60, "thorough": 400, "search": 120}.get(tier, 60)):
+        yield {"kind": "canon-rect", "sub": rng.randrange(1 << 30)}
 
 
 # ----------------------------------------------------------------------------------------------- oracles
@@ -1023,6 +1061,287 @@ def run_bridge(inp):
     return out
 
 
+# ----------------------------------------------------------------------------------------------- extension x10:
+# SVD shift (truncating / untruncated / rank-deficient / d = 3), last-site QR, bonds of truncate, rectangular Gram tests
+# (theorems C10.21 - C10.27 of Props/C10.lean; Lemmas/MpsBridgeSvd.lean)
+
+H4 = 0.5 * np.array([[1, 1, 1, 1], [1, -1, 1, -1], [1, 1, -1, -1], [1, -1, -1, 1]], dtype=complex)  # dyadic, orthogonal
+
+
+def svdx_mps(rng, nprng, variant):
+    """MPS for the SVD-shift cases: physical dimension 3 present (all 3 for variant `d3`), one bond with a Schmidt direction
+    that the absolute threshold 1e-12 cuts (`tiny`), exactly rank-deficient bonds (`rankdef`), plain otherwise"""
+    L = rng.choice([2, 3, 3, 4, 4, 5])
+    dims = [3] * L if variant == "d3" else [rng.choice([2, 3]) for _ in range(L)]
+    if variant != "d3" and 3 not in dims and rng.random() < 0.5:
+        dims[rng.randrange(L)] = 3
+    bonds = [1]
+    for i in range(L - 1):
+        cap = min(int(np.prod(dims[: i + 1])), int(np.prod(dims[i + 1:])), 4)
+        bonds.append(rng.randint(1, cap) if variant != "rankdef" else min(4, rng.randint(2, 4)))
+    bonds.append(1)
+    ts = [nprng.normal(size=(dims[i], bonds[i], bonds[i + 1])) + 1j * nprng.normal(size=(dims[i], bonds[i], bonds[i + 1]))
+          for i in range(L)]
+    marks = []
+    for i in range(L - 1):
+        if bonds[i + 1] >= 2:
+            if variant == "tiny" or (variant in ("d3", "plain") and rng.random() < 0.4):
+                ts[i][:, :, -1] *= 10.0 ** (-rng.uniform(7.0, 9.5))
+                marks.append(("tiny", i))
+            elif variant == "rankdef":
+                if rng.random() < 0.5:
+                    ts[i][:, :, -1] = ts[i][:, :, 0]
+                else:
+                    ts[i][:, :, -1] = 0.0
+                marks.append(("rankdef", i))
+    return L, dims, bonds, ts, marks
+
+
+def theta_of(a, b):
+    return np.tensordot(a, b, axes=(2, 1)).reshape(a.shape[0] * a.shape[1], b.shape[0] * b.shape[2])
+
+
+def block_oracle(e, probs):
+    """C10.24d on the real call, independently of the model: the merged matrix of the returned pair differs from the one
+    handed to the SVD by exactly the discarded weight, `|theta - theta'|_F = sqrt(sum_{x >= keep} s_x^2)`; for keep = len(s)
+    it is unchanged.  Returns (keep, k, discarded weight)."""
+    a_new, b_new = e["ret"]
+    s = e["S"]
+    keep = a_new.shape[2]
+    th_old = theta_of(e["A"], e["B"])
+    th_new = theta_of(a_new, b_new)
+    nrm = max(1.0, float(np.linalg.norm(th_old)))
+    err = float(np.linalg.norm(th_old - th_new))
+    w = float(np.sum(s[keep:] ** 2))
+    dev = abs(err - np.sqrt(w))
+    BLOCK["n"] += 1
+    BLOCK["worst"] = max(BLOCK["worst"], dev / nrm)
+    if not dev <= 1e-12 * nrm + 1e-9 * np.sqrt(w):
+        BLOCK["bad"] += 1
+        BLOCK["detail"] = f"|theta-theta'|_F = {err:.6e}, sqrt(discarded weight) = {np.sqrt(w):.6e}"
+        probs.append(f"two_site_svd at site {e['site']}: merged matrix changed by {err:.6e}, discarded weight^(1/2) = {np.sqrt(w):.6e} "
+                     f"(keep {keep} of {len(s)})")
+    if b_new.shape[1] != keep or a_new.shape[:2] != e["A"].shape[:2] or (b_new.shape[0], b_new.shape[2]) != (e["B"].shape[0], e["B"].shape[2]):
+        probs.append(f"two_site_svd returned shapes {a_new.shape} / {b_new.shape} for inputs {e['A'].shape} / {e['B'].shape}")
+    return keep, len(s), w
+
+
+def bonds_of_events(events, L):
+    """physical bonds touched by the two-site primitives of a recorded run (flips replayed): harness-side reading of the
+    REAL call sequence (site = position of the tensor object in `mps.tensors` at call time)"""
+    flipped, out = False, []
+    for e in events:
+        if e["ev"] == "F":
+            flipped = not flipped
+        elif e["ev"] in ("svd", "svdT") or (e["ev"] == "qr" and e.get("changed") is not None and len(e["changed"]) == 2):
+            i = e["site"]
+            out.append(L - 2 - i if flipped else i)
+    return out
+
+
+def run_svdx(inp):
+    rng = random.Random(inp["sub"])
+    nprng = np.random.default_rng(inp["sub"])
+    variant = inp["variant"]
+    L, dims, bonds, ts, marks = svdx_mps(rng, nprng, variant)
+    tag = f"sx{inp['sub']}"
+    out = []
+    mps = MPS(L, tensors=[t.copy() for t in ts], physical_dimensions=list(dims))
+    with observed(mps):
+        # ---- (1) SVD shift right at every bond, left to right (centre prepared by QR so that the cut values are Schmidt values)
+        mps.set_canonical_form(0)
+        for i in range(L - 1):
+            before = mps.to_vec()
+            events, _, _, _, exc = record(lambda: mps.shift_orthogonality_center_right(i, "SVD"))
+            after = mps.to_vec() if not exc else before
+            probs = []
+            sv = [e for e in events if e["ev"] == "svd" and "theta" in e]
+            if exc or len(sv) != 1:
+                probs.append(f"shift_orthogonality_center_right({i}, 'SVD') raised {exc} / made {len(sv)} two_site_svd calls")
+                keep = k = 0
+                w = 0.0
+            else:
+                keep, k, w = block_oracle(sv[0], probs)
+                scale = max(1.0, float(np.linalg.norm(before)))
+                dev = float(np.linalg.norm(after - before))
+                # the centre is at site i: the environment of the block is isometric, the vector moves by exactly sqrt(w)
+                if not dev <= 1e-10 * scale + 1.001 * np.sqrt(w):
+                    probs.append(f"to_vec changed by {dev:.3e}, discarded weight^(1/2) {np.sqrt(w):.3e}")
+                if keep == k and not dev <= 1e-10 * scale:
+                    probs.append(f"nothing discarded but to_vec changed by {dev:.3e}")
+                if left_iso_dev(mps.tensors[i]) > ISO_TOL:
+                    probs.append(f"site {i} not left-isometric after the SVD shift")
+            COUNTS.add("svdx_shift_truncating" if keep < k else "svdx_shift_full")
+            out.append({"kind": "svdx-shift", "req": f"trace shiftR {L} {i} SVD", "impl": trace_string(events),
+                        "oracle": {"ok": not probs, "detail": "; ".join(probs) or f"{variant} L={L} dims={dims} bonds={bonds} site {i} keep {keep}/{k} w={w:.2e}"},
+                        "sig": f"svdx-shift:{variant}:{dims[i]}:{dims[i + 1]}:{keep}:{k}:{i == L - 2}", "nontrivial": keep < k,
+                        "id": f"{tag}.s{i}", "meta": {"marks": marks}})
+            out += primitive_cases(events, f"{tag}.s{i}", budget=2)
+            if exc:
+                return out
+        # ---- (2) last site: the SVD request falls back to QR and R (1 x 1) is thrown away
+        before = mps.to_vec()
+        events, _, _, _, exc = record(lambda: mps.shift_orthogonality_center_right(L - 1, "SVD"))
+        after = mps.to_vec() if not exc else before
+        probs = []
+        qr = [e for e in events if e["ev"] == "qr" and "R" in e]
+        if exc or len(qr) != 1 or any(e["ev"] in ("svd", "svdT") for e in events):
+            probs.append(f"shift at the last site raised {exc} / events {trace_string(events)}")
+        else:
+            e = qr[0]
+            r = e["R"]
+            if r.shape != (1, 1):
+                probs.append(f"R at the last site has shape {r.shape}")
+            else:
+                scale = max(1.0, float(np.linalg.norm(before)))
+                dev = float(np.linalg.norm(before - r[0, 0] * after))
+                WORST["scalar"] = max(WORST["scalar"], dev / scale)
+                if not dev <= 1e-10 * scale:
+                    probs.append(f"old vector != r00 x new vector at the last site (dev {dev:.3e}, r00 = {r[0, 0]!r})")
+                if abs(float(np.linalg.norm(after)) - 1.0) > 1e-9 and float(np.linalg.norm(before)) > 1e-200:
+                    probs.append(f"vector after dropping R has norm {float(np.linalg.norm(after))!r}")
+        out.append({"kind": "svdx-last", "req": f"trace shiftR {L} {L - 1} SVD", "impl": trace_string(events),
+                    "oracle": {"ok": not probs, "detail": "; ".join(probs) or f"L={L} last site phys {dims[-1]}"},
+                    "sig": f"svdx-last:{dims[-1]}:{mps.tensors[-1].shape}", "nontrivial": True, "id": f"{tag}.last"})
+        out += primitive_cases(events, f"{tag}.last", budget=2)
+        if exc:
+            return out
+        # ---- (3) truncate with a threshold that really cuts, from a chosen centre (incl. both ends)
+        c = rng.choice([0, L - 1, rng.randrange(L)])
+        mps2 = MPS(L, tensors=[t.copy() for t in ts], physical_dimensions=list(dims))
+    with observed(mps2):
+        mps2.set_canonical_form(c)
+        nrm = float(np.linalg.norm(mps2.to_vec()))
+        if nrm > 0:
+            mps2.tensors[c] = mps2.tensors[c] / nrm
+        thr = inp["thr"]
+        before = mps2.to_vec()
+        events, _, _, canon_rets, exc = record(lambda: mps2.truncate(threshold=thr, max_bond_dim=None))
+        probs = []
+        c_seen = canon_rets[0][0] if canon_rets and canon_rets[0] else None
+        after = mps2.to_vec() if not exc else before
+        sw = 0.0
+        ncut = 0
+        if exc or c_seen is None:
+            probs.append(f"truncate raised {exc} / check_canonical_form returned {canon_rets}")
+        else:
+            for e in events:
+                if e["ev"] in ("svd", "svdT") and "theta" in e:
+                    keep, k, w = block_oracle(e, probs)
+                    sw += float(np.sqrt(w))
+                    ncut += int(keep < k)
+                    if e["thr"] != thr or e["cap"] is not None:
+                        probs.append(f"truncate called two_site_svd(threshold={e['thr']!r}, max_bond_dim={e['cap']}) for threshold={thr!r}")
+            bl = bonds_of_events(events, L)
+            if sorted(bl) != list(range(L - 1)):
+                probs.append(f"truncate ran its two-site SVD on bonds {bl}: not every bond 0..{L - 2} exactly once")
+            dev = float(np.linalg.norm(after - before))
+            if not dev <= 1e-9 + 1.5 * sw:
+                probs.append(f"truncate(threshold={thr!r}) moved the unit vector by {dev:.3e}; sum of sqrt(discarded weights) = {sw:.3e}")
+            if c_seen > c:
+                probs.append(f"check_canonical_form()[0] = {c_seen} after set_canonical_form({c})")
+        COUNTS.add("svdx_truncate_cutting_calls", ncut)
+        if c_seen is not None:
+            bl = bonds_of_events(events, L)
+            out.append({"kind": "svdx-truncate", "req": f"trace truncate {L} {c_seen}", "impl": trace_string(events),
+                        "oracle": {"ok": not probs, "detail": "; ".join(probs) or f"L={L} c={c_seen} thr={thr:g} cuts {ncut} sum sqrt w {sw:.2e}"},
+                        "sig": f"svdx-truncate:{L}:{c_seen}:{thr:g}:{ncut}", "nontrivial": L > 1, "id": f"{tag}.tr"})
+            out.append({"kind": "svdx-bonds", "req": f"bonds truncate {L} {c_seen}", "impl": "c" + "".join(f" {x}" for x in bl),
+                        "oracle": None, "sig": f"svdx-bonds:{L}:{c_seen}", "nontrivial": L > 2, "id": f"{tag}.bonds"})
+            out += primitive_cases(events, f"{tag}.tr", budget=3)
+        else:
+            out.append({"kind": "svdx-truncate", "req": None, "impl": None, "oracle": {"ok": False, "detail": "; ".join(probs)},
+                        "sig": "svdx-truncate:failed", "id": f"{tag}.tr"})
+        if exc:
+            return out
+        # ---- (4) set_canonical_form: same bonds, same order (C10.27c)
+        c2 = rng.randrange(L)
+        dec = rng.choice(["QR", "SVD"])
+        events, _, _, _, exc = record(lambda: mps2.set_canonical_form(c2, dec))
+        if not exc:
+            bl = bonds_of_events(events, L)
+            out.append({"kind": "svdx-bonds-setcanon", "req": f"bonds setcanon {L} {c2} {dec}", "impl": "c" + "".join(f" {x}" for x in bl),
+                        "oracle": {"ok": sorted(bl) == list(range(L - 1)),
+                                   "detail": f"set_canonical_form({c2}, {dec}) ran its two-site primitive on bonds {bl}"},
+                        "sig": f"svdx-bonds-sc:{L}:{c2}:{dec}", "nontrivial": L > 2, "id": f"{tag}.scb"})
+    return out
+
+
+def iso_matrix(rng, rows, cols, mix):
+    """rows x cols matrix with orthonormal columns and dyadic entries (distinct unit vectors times a phase in {1,-1,i,-i};
+    for rows = 4 optionally mixed by the dyadic Hadamard matrix): every Gram entry is exact in binary64"""
+    pick = rng.sample(range(rows), cols)
+    m = np.zeros((rows, cols), dtype=complex)
+    for j, i in enumerate(pick):
+        m[i, j] = rng.choice([1, -1, 1j, -1j])
+    if mix and rows == 4:
+        m = H4 @ m
+    return m
+
+
+def run_canon_rect(inp):
+    """exact isometry tests on rectangular tensors, physical dimension 2 / 3 / 4, through the real check_canonical_form and
+    through the model's `checkCanonicalOf` / `isLeftIso` / `isRightIso` (C10.26)"""
+    rng = random.Random(inp["sub"])
+    L = rng.choice([1, 2, 3, 3, 4])
+    out = []
+    dims, bonds, ts, want_a, want_b = [], [1], [], [], []
+    for i in range(L):
+        d = rng.choice([2, 3, 3, 4])
+        left = bonds[-1]
+        kind = rng.choice(["L", "R", "N", "L", "R"])
+        if kind == "L":      # (d*left) x right isometry, right <= d*left
+            right = 1 if i == L - 1 else rng.randint(1, min(3, d * left))
+            t = iso_matrix(rng, d * left, right, rng.random() < 0.5).reshape(d, left, right)
+        elif kind == "R":    # left x (d*right) with orthonormal rows: transpose of an isometry
+            right = 1 if i == L - 1 else rng.randint(1, 3)
+            if left > d * right:
+                right = -(-left // d)
+                if i == L - 1:
+                    kind = "N"
+            if kind == "R":
+                m = iso_matrix(rng, d * right, left, rng.random() < 0.5).T       # left x (d*right), rows orthonormal
+                t = m.reshape(left, d, right).transpose(1, 0, 2).copy()
+        if kind == "N":
+            right = 1 if i == L - 1 else rng.randint(1, 3)
+            t = np.array([[[rng.choice([0.0, 0.5, 1.0, 2.0, -1.5]) + 1j * rng.choice([0.0, 0.0, 1.0, -0.5]) for _ in range(right)]
+                           for _ in range(left)] for _ in range(d)], dtype=complex)
+            t[0, 0, 0] = 2.0   # neither test can pass: a Gram diagonal entry is at least 4
+        dims.append(d)
+        bonds.append(t.shape[2])
+        ts.append(np.ascontiguousarray(t))
+    mps = MPS(L, tensors=[t.copy() for t in ts], physical_dimensions=dims)
+    ret = mps.check_canonical_form()
+    impl = "c" + "".join(f" {i}" for i in ret)
+    ld = [left_iso_dev(t) for t in ts]
+    rd = [right_iso_dev(t) for t in ts]
+    want = [i for i in range(L) if all(x < 1e-12 for x in ld[:i]) and all(x < 1e-12 for x in rd[i + 1:])]
+    clear = all(x < 1e-12 or x > 0.4 for x in ld + rd)
+    tag = f"cr{inp['sub']}"
+    out.append({"kind": "canon-rect", "req": "canonT " + req_tensors(ts), "impl": impl, "id": f"{tag}.c",
+                "oracle": {"ok": list(ret) == want, "detail": f"shapes {[t.shape for t in ts]}: returned {ret}, valid centres by dense isometry test {want}"} if clear else None,
+                "sig": f"canon-rect:{[t.shape for t in ts]}:{ret}", "nontrivial": L > 1})
+    j = rng.randrange(L)
+    bits = ("1" if ld[j] < 1e-12 else "0") + ("1" if rd[j] < 1e-12 else "0")
+    # the two bits are read off the REAL method on a one-site chain cut out of the network (boundary bonds need not be 1)
+    one = MPS(1, tensors=[ts[j].copy()], physical_dimensions=[dims[j]])
+    evs, contracts, _, rets, exc = (None, None, None, None, None)
+    with observed(one):
+        evs, contracts, _, rets, exc = record(one.check_canonical_form)
+    left = [m for s_, m in contracts if s_ == "ijk,ijl->kl"]
+    right = [m for s_, m in contracts if s_ == "ijk,ilk->jl"]
+    if not exc and len(left) == 1 and len(right) == 1:
+        real_bits = ("1" if np.allclose(left[0], np.eye(left[0].shape[0])) else "0") + ("1" if np.allclose(right[0], np.eye(right[0].shape[0])) else "0")
+        out.append({"kind": "canon-rect-iso", "req": "iso " + req_tensor(ts[j]), "impl": real_bits, "id": f"{tag}.i",
+                    "oracle": {"ok": real_bits == bits, "detail": f"tensor {ts[j].shape}: Gram tests of the real code {real_bits}, dense isometry tests {bits}"},
+                    "sig": f"canon-rect-iso:{ts[j].shape}:{real_bits}", "nontrivial": True})
+        out.append({"kind": "canon-rect-gramL", "req": "gram L " + req_tensor(ts[j]), "impl": impl_mat(left[0]), "oracle": None,
+                    "id": f"{tag}.gl", "sig": f"crgl:{ts[j].shape}", "nontrivial": ts[j].shape[2] > 1})
+        out.append({"kind": "canon-rect-gramR", "req": "gram R " + req_tensor(ts[j]), "impl": impl_mat(right[0]), "oracle": None,
+                    "id": f"{tag}.gr", "sig": f"crgr:{ts[j].shape}", "nontrivial": ts[j].shape[1] > 1})
+    return out
+
+
 def run(inp):
     """an exception that comes out of the real package while the harness exercises it (e.g. `to_vec()` on a network a move
     left inconsistent) is a failure of the property on this input, not a harness crash"""
@@ -1052,6 +1371,10 @@ def run_inner(inp):
         return run_canon_tables(inp)
     if k == "bridge":
         return run_bridge(inp)
+    if k == "svdx":
+        return run_svdx(inp)
+    if k == "canon-rect":
+        return run_canon_rect(inp)
     raise ValueError(k)
 
 
@@ -1064,6 +1387,12 @@ def spec():
         {"name": "observations (not verdicts): sign/phase of the scalar dropped by normalize, state of the MPS after a refused pad",
          "ok": True, "counts": dict(COUNTS), "largest_deviation_accepted_by_the_oracles": dict(WORST),
          "oracle_tolerances": {"vec_rel": VEC_TOL, "isometry": ISO_TOL, "scalar_multiple": 1e-9}},
+        {"name": "shape hypotheses of Lemmas/MpsBridgeSvd.lean on every real call: svdShaped (U (phys_i*left) x k, s of length k, Vh k x (phys_j*right), "
+                 "1 <= keep <= k, inner bonds equal) for two_site_svd; R is 1 x 1 and Q is (phys*left) x 1 for right_qr at the last site",
+         "ok": SHAPE["svd_bad"] == 0 and SHAPE["qrlast_bad"] == 0, "n": SHAPE["svd_n"] + SHAPE["qrlast_n"],
+         "n_svd": SHAPE["svd_n"], "n_last_site_qr": SHAPE["qrlast_n"], "detail": SHAPE["detail"]},
+        {"name": "C10.24d on the real two_site_svd calls of the svdx kinds: |theta(a,b) - theta(a',b')|_F = sqrt(discarded weight)",
+         "ok": BLOCK["bad"] == 0, "n": BLOCK["n"], "worst_residual": BLOCK["worst"], "detail": BLOCK["detail"]},
         {"name": "bridge (Lemmas/MpsBridge.lean) on the real tensors: to_vec = (0,0) entry of the zero-padded matrix chain; QR shift = "
                  "A,B -> Q,R*B; flip = transpose+reverse; pad invisible; hypotheses wellShapedChain / qrShaped / A = QR",
          "ok": BRIDGE["bad"] == 0, "n": BRIDGE["n"], "worst_residual": BRIDGE["worst"], "detail": BRIDGE["detail"]},
